@@ -6,7 +6,8 @@
 //       hbset <interval> <offset> <dev|-1> | hbforce | hbdev <dev> | get | m64 | devlist <originA> <originB>
 //       gfreq <dev|-1> <interval ms> <offset 10ms> <pairs>   (PGN 126208 request for PGN 126993 from source 50 arrives, then one poll;
 //                                                           output = the heartbeat frames only, acknowledgements are C09's)
-// C12 oracle: heartbeat grid computed from the observed open time and the configured interval/offset only, payload decoded with
+// C12 oracle: heartbeat grid computed from the observed open time, the default interval 60 s, the offset in force after open
+//             (read back from the node: the property leaves the default offset open) and the configured interval/offset only, payload decoded with
 //             the published layout, sequence counted by the harness.   C13 oracle: the outputs of the runs of a group are compared.
 #include "node.h"
 #include "N2kDeviceList.h"
@@ -27,6 +28,7 @@ struct Node : public MockN2k {
   bool hbDis(int i) { return Devices[i].HeartbeatScheduler.IsDisabled(); }
   uint64_t hbNext(int i) { return Devices[i].HeartbeatScheduler.GetNextTime(); }
   unsigned hbSeq(int i) { return Devices[i].HeartbeatSequence; }
+  bool claimTimerOn(int i) { return Devices[i].AddressClaimTimer.IsEnabled(); }
 };
 
 #ifdef N2K_VERIF_T32
@@ -54,6 +56,7 @@ struct ODev {
 };
 static ODev od[16];
 static bool oOpen = false, backpressure = false, preOpenConfig = false;
+static bool claimOnBefore[16];   // the device's address-claim timer was armed when the poll started (its length is not C12's subject)
 static uint64_t T0 = 0;
 static long hbScheduled = 0, hbForced = 0;
 static bool caseWrapSeq = false, caseLate = false, caseAbove65535 = false;
@@ -67,7 +70,7 @@ static bool active() { return mode == 1 || mode == 2; }
 
 static void onOpened() {
   oOpen = true; T0 = g_now;
-  for (int d = 0; d < nDev; d++) { od[d].P = 60000; od[d].O = 10000; od[d].G = leastGridAfter(od[d], g_now); od[d].claimFrom = active() ? (int64_t)g_now : -1000000; od[d].reenabledSame = od[d].forcedWhileDisabled = false; }
+  for (int d = 0; d < nDev; d++) { od[d].P = 60000; od[d].O = N->GetHeartbeatOffset(d) /* the default offset is not fixed by the property: learn the one in force */; od[d].G = leastGridAfter(od[d], g_now); od[d].claimFrom = active() ? (int64_t)g_now : -1000000; od[d].reenabledSame = od[d].forcedWhileDisabled = false; }
 }
 
 // the documented meaning of SetHeartbeatIntervalAndOffset (NMEA2000.h): interval 0xffffffff keep, 0xfffffffe default (60000),
@@ -126,7 +129,7 @@ static void oraclePoll(const std::vector<Frame> &fr) {
     if (seq != o.seq) C.fail("C12:sequence", "dev %d sequence %u, expected %u", d, seq, o.seq);
     o.seq = (seq == 0xff ? o.seq : seq + 1) % 253; if (o.seq == 0) caseWrapSeq = true;
     if (o.P == 0) { C.fail(o.forcedWhileDisabled ? "C12:forced-reenables-disabled" : "C12:sent-while-disabled", "dev %d heartbeat at +%llu with interval 0 configured", d, (unsigned long long)(t - T0)); continue; }
-    if ((int64_t)t < o.claimFrom + 250) C.fail("C12:sent-while-claiming", "dev %d at +%llu", d, (unsigned long long)(t - T0));
+    if ((int64_t)t < o.claimFrom + 250) C.count("heartbeat_inside_250ms_after_claim");   // silence while claiming is C04's demand, not C12's
     if (t < o.G) C.fail(o.keepAllTouched ? "C12:keep-interval-multidevice" : "C12:early", "dev %d heartbeat at +%llu, grid point +%llu (interval %u offset %u)", d, (unsigned long long)(t - T0), (unsigned long long)(o.G - T0), o.P, o.O);
     if (t > o.G + 1) caseLate = true;
     checkPayload(f, d, false);
@@ -137,14 +140,14 @@ static void oraclePoll(const std::vector<Frame> &fr) {
   for (int d = 0; d < nDev; d++) {
     ODev &o = od[d];
     if (cnt[d] > 1) C.fail("C12:two-in-one-poll", "dev %d sent %d heartbeats in one poll", d, cnt[d]);
-    if (cnt[d] == 0 && o.P != 0 && (int64_t)g_now > o.claimFrom + 252 && g_now > o.G)
+    if (cnt[d] == 0 && o.P != 0 && !claimOnBefore[d] && g_now > o.G)
       { C.fail(o.reenabledSame ? "C12:reenable-same-interval" : (o.keepAllTouched ? "C12:keep-interval-multidevice" : "C12:missed"), "dev %d no heartbeat at +%llu, grid point +%llu passed (interval %u offset %u)", d, (unsigned long long)(g_now - T0), (unsigned long long)(o.G - T0), o.P, o.O);
         o.G = leastGridAfter(o, g_now); }   // report once per grid point
   }
 }
 
 // ------------------------------------------------------------------------------------------------ C13 bookkeeping
-struct Run { uint64_t origin; std::vector<std::string> ops, outs; std::vector<uint64_t> rel; bool risk = false, sparse = false; long firstLine = 0; };
+struct Run { uint64_t origin; std::vector<std::string> ops, outs; std::vector<uint64_t> rel; bool risk = false, sparse = false, boundary = false; long firstLine = 0; };
 static std::vector<Run> group;
 static std::string groupId;
 static bool inRun = false;
@@ -156,6 +159,20 @@ static void noteRisk(uint64_t now, uint64_t n, bool ctor) {
   for (int i = 0; i < (ctor ? 4 : 3); i++) {
     uint32_t c = 0xFFFFFFFFu - adds[i]; uint32_t dist = c - (uint32_t)now;
     if ((uint64_t)dist < n) group.back().risk = true;
+  }
+}
+
+// An operation of the script (configuration, forced heartbeat, claim, driver behaviour) that executes within 2 ms of a grid point or
+// of the end of a claim window: if one of the two runs had its open deadline armed 1 ms late (sentinel slack), the operation falls on
+// the other side of that instant and the traces legitimately differ by a whole heartbeat. Such pairs are not comparable.
+static void noteBoundary() {
+  if (!T32B || !inRun || !oOpen) return;
+  for (int d = 0; d < nDev; d++) {
+    const ODev &o = od[d];
+    int64_t c = (int64_t)g_now - (o.claimFrom + 250); if (c >= -5 && c <= 5) group.back().boundary = true;
+    if (o.P == 0) continue;
+    int64_t a = (int64_t)g_now - (int64_t)o.G, b = a + (int64_t)o.P;
+    if ((a >= -2 && a <= 2) || (b >= -2 && b <= 2)) group.back().boundary = true;
   }
 }
 
@@ -194,6 +211,7 @@ static void finishGroup() {
       std::vector<Ev> ea = events(a), eb = events(b);
       bool ok = ea.size() == eb.size();
       for (size_t i = 0; ok && i < ea.size(); i++) { uint64_t d = ea[i].t > eb[i].t ? ea[i].t - eb[i].t : eb[i].t - ea[i].t; if (ea[i].f != eb[i].f || d > 1) ok = false; }
+      if (!ok && (a.boundary || b.boundary)) { C.count("c13_pairs_skipped_sentinel_at_grid_boundary"); continue; }
       C.count(ok ? "c13_pairs_within_1ms_sentinel" : "c13_pairs_sentinel_beyond_1ms");
       if (ok) continue;
       C.fail(std::string("C13:origin-dependence:") + FLAVOR + ":" + kind + ":beyond-1ms", "scenario %s origins %llu / %llu: traces differ by more than the 1 ms sentinel slack (first at op %zu `%s`)", groupId.c_str(), (unsigned long long)a.origin, (unsigned long long)b.origin, diff, a.ops[diff].c_str());
@@ -216,6 +234,7 @@ static void emit(const std::string &out) {
 static std::string framesOut(std::vector<Frame> &fr) { std::string s; for (auto &f : fr) { if (!s.empty()) s += ' '; s += frameStr(f); } return s.empty() ? "-" : s; }
 
 static int devlistProbe(uint64_t origin);
+static void beforePoll() { for (int d = 0; d < nDev && d < 16; d++) claimOnBefore[d] = N->claimTimerOn(d); }
 static void trackOpen(bool wasOpen) { if (!wasOpen && N->isOpen()) { onOpened(); C.count("opened"); } }
 
 static void exec(const std::string &line) {
@@ -258,20 +277,22 @@ static void exec(const std::string &line) {
   C.op("%s", line.c_str()); C.count("op_" + w[0]);
   if (!N) { C.out("bad-op"); return; }
   if (inRun) { group.back().ops.push_back(line); group.back().rel.push_back(g_now - originNow); }
+  struct BoundaryGuard { bool on; BoundaryGuard(bool o) : on(o) { if (on) noteBoundary(); } ~BoundaryGuard() { if (on) noteBoundary(); } }
+    guard(w[0] != "t" && w[0] != "poll" && w[0] != "run" && w[0] != "get" && w[0] != "m64");
   if (w[0] == "t") { g_now += strtoull(w[1].c_str(), 0, 10); if (inRun) group.back().sparse = true; emit("ok"); return; }
   if (w[0] == "acc") { for (char c : w[1]) { N->acceptScript.push_back(c == '1'); if (c != '1') backpressure = true; } emit("ok"); return; }
   if (w[0] == "accdef") { N->acceptDefault = w[1] == "1"; if (!N->acceptDefault) backpressure = true; emit("ok"); return; }
   if (w[0] == "canopen") { N->openOk = w[1] == "1"; emit("ok"); return; }
   if (w[0] == "poll") {
     noteRisk(g_now, 1, false);
-    bool wasOpen = N->isOpen(); N->sent.clear(); N->ParseMessages(); trackOpen(wasOpen);
+    bool wasOpen = N->isOpen(); N->sent.clear(); beforePoll(); N->ParseMessages(); trackOpen(wasOpen);
     oraclePoll(N->sent); emit(framesOut(N->sent)); N->sent.clear(); return;
   }
   if (w[0] == "run") {
     unsigned long n = strtoul(w[1].c_str(), 0, 10); std::string out; char b[32];
     noteRisk(g_now, n, false);
     for (unsigned long k = 0; k < n; k++) {
-      bool wasOpen = N->isOpen(); N->sent.clear(); N->ParseMessages(); trackOpen(wasOpen);
+      bool wasOpen = N->isOpen(); N->sent.clear(); beforePoll(); N->ParseMessages(); trackOpen(wasOpen);
       oraclePoll(N->sent);
       for (auto &f : N->sent) { snprintf(b, sizeof b, "%lu:", k); if (!out.empty()) out += ' '; out += b; out += frameStr(f); }
       N->sent.clear(); g_now++;
@@ -340,29 +361,45 @@ static void exec(const std::string &line) {
     unsigned char f0[8] = {(unsigned char)(fpseq << 5), 11, pl[0], pl[1], pl[2], pl[3], pl[4], pl[5]};
     unsigned char f1[8] = {(unsigned char)((fpseq << 5) | 1), pl[6], pl[7], pl[8], pl[9], pl[10], 0xff, 0xff};
     N->rx(id, 8, f0); N->rx(id, 8, f1);
-    N->sent.clear(); N->ParseMessages();
-    // ---- oracle: a request may set 1000..60000 ms (or keep / restore the default); anything else leaves the heartbeat as it was
+    N->sent.clear(); beforePoll(); N->ParseMessages();
+    // ---- oracle: a request may set 1000..60000 ms (or keep / restore the default 60 s); an interval outside that leaves the heartbeat
+    // as it was and never switches it off. The property says nothing about the offset field (unit, limits) nor about parameter
+    // pairs: whether such a request is served, and the offset then in force, are learnt from the node.
     bool ivOk = iv == KEEP || iv == RESTORE || (iv >= 1000 && iv <= 60000);
-    bool offOk = off == 0xffff || off <= 6000;
-    bool accepted = active() && ivOk && offOk && pairs == 0 && !(iv == KEEP && off == 0xffff);
-    std::vector<Frame> rest;
+    bool plain = (off == 0xffff || off == 0) && pairs == 0;        // no offset wish, no parameter pairs: must be served when the interval is in limits
+    bool mustServe = active() && ivOk && plain && !(iv == KEEP && off == 0xffff);
+    bool mayServe = active() && ivOk && !(iv == KEEP && off == 0xffff);
+    bool anyServed = false;
     for (int i = 0; i < nDev; i++) {
       if (d >= 0 && i != d) continue;
-      if (accepted) oracleConfig(iv, (off == 0xffff || off == 0) ? KEEP : off * 10u, i);
-      uint32_t got = N->GetHeartbeatInterval(i);
-      if (oOpen && !preOpenConfig && got != od[i].P) {
-        const char *cls = iv == 0 ? "0" : iv < 1000 ? "below-1000" : (iv > 60000 && iv < RESTORE) ? "above-60000" : !offOk ? "offset" : pairs ? "pairs" : "in-range";
-        C.fail(std::string("C12:gf-request-interval:") + cls, "request interval %u offset %u pairs %u to dev %d: heartbeat interval now %u, must be %u", iv, off, pairs, i, got, od[i].P);
-        od[i].P = got; od[i].O = N->GetHeartbeatOffset(i); if (got) od[i].G = leastGridAfter(od[i], g_now);   // report once
+      if (!oOpen || preOpenConfig) continue;
+      ODev &o = od[i];
+      uint32_t got = N->GetHeartbeatInterval(i), gotO = N->GetHeartbeatOffset(i);
+      uint32_t want = iv == KEEP ? o.P : iv == RESTORE ? 60000u : iv;   // only meaningful when ivOk
+      bool same = got == o.P && gotO == o.O;
+      bool served = mayServe && got == want && (o.P != 0 || iv != KEEP);
+      const char *cls = iv == 0 ? "0" : iv < 1000 ? "below-1000" : (iv > 60000 && iv < RESTORE) ? "above-60000" : "in-range";
+      if (!mayServe) {
+        if (got != o.P) C.fail(std::string("C12:gf-request-interval:") + cls, "request interval %u offset %u pairs %u to dev %d: heartbeat interval now %u, must stay %u", iv, off, pairs, i, got, o.P);
+      } else if (mustServe) {
+        if (got != want) C.fail(std::string("C12:gf-request-interval:") + cls, "request interval %u offset %u pairs %u to dev %d: heartbeat interval now %u, must be %u", iv, off, pairs, i, got, want);
+      } else if (!(same || got == want)) {
+        C.fail(std::string("C12:gf-request-interval:") + cls, "request interval %u offset %u pairs %u to dev %d: heartbeat interval now %u, must be %u or stay %u", iv, off, pairs, i, got, want, o.P);
       }
-      if (oOpen && active() && od[i].P != 0 && (od[i].P < 1000 || od[i].P > 655320)) C.fail("C12:gf-request-interval:range", "dev %d interval %u", i, od[i].P);
+      if (got != 0 && (got < 1000 || got > 655320)) C.fail("C12:gf-request-interval:range", "dev %d interval %u", i, got);
+      if (served && !same) anyServed = true;
+      if (mustServe || (served && !same)) anyServed = true;
+      // continue from the state actually in force (report once); a changed interval/offset restarts on the new grid
+      if (!same) { bool was = o.P != 0; o.P = got; o.O = gotO; if (got) o.G = leastGridAfter(o, g_now); (void)was; o.forcedWhileDisabled = false; }
     }
+    bool accepted = mustServe || anyServed;
+    std::vector<Frame> rest;
     for (auto &f : N->sent) {
       if (!isHb(f)) continue;
       int dd = devOfSrc(f.id & 0xff);
       if (f.buf[2] == 0xff && active() && dd >= 0 && (d < 0 || dd == d)) {   // the answer of a served request: a forced heartbeat
         hbForced++;
-        if (!accepted) C.fail("C12:gf-request-answered", "request interval %u offset %u pairs %u was out of limits but answered with a heartbeat", iv, off, pairs);
+        if (!mayServe) C.fail("C12:gf-request-answered", "request interval %u offset %u pairs %u was out of limits but answered with a heartbeat", iv, off, pairs);
         checkPayload(f, dd, true);
       } else rest.push_back(f);
     }
